@@ -3,6 +3,7 @@ package compiler
 import (
 	"fmt"
 
+	"github.com/smarthome-go/homescript/v3/homescript/analyzer/ast"
 	"github.com/smarthome-go/homescript/v3/homescript/errors"
 	evalValue "github.com/smarthome-go/homescript/v3/homescript/interpreter/value"
 	"github.com/smarthome-go/homescript/v3/homescript/runtime/value"
@@ -13,6 +14,7 @@ func (self Compiler) CurrFn() *Function { return self.modules[self.currModule][s
 func (self Compiler) currLoop() Loop { return self.loops[len(self.loops)-1] }
 func (self *Compiler) pushLoop(l Loop) {
 	l.tryDepth = self.tryDepth
+	l.pending = self.pending
 	self.loops = append(self.loops, l)
 }
 
@@ -22,6 +24,21 @@ func (self *Compiler) popTryLabels(count uint, span errors.Span) {
 		self.insert(newPrimitiveInstruction(Opcode_PopTryLabel), span)
 	}
 }
+
+// Inserts `count` instructions which drop the operands of abandoned expressions.
+func (self *Compiler) dropPending(count uint, span errors.Span) {
+	for i := uint(0); i < count; i++ {
+		self.insert(newPrimitiveInstruction(Opcode_Drop), span)
+	}
+}
+
+// Compiles an expression while `count` operands of the enclosing expression are waiting on the stack.
+func (self *Compiler) compileOperand(node ast.AnalyzedExpression, count uint) {
+	self.pending += count
+	self.compileExpr(node)
+	self.pending -= count
+}
+
 func (self *Compiler) popLoop() {
 	self.loops = self.loops[:len(self.loops)-1]
 }
